@@ -107,10 +107,41 @@ Definition wf_ro_span (s : list op) : bool :=
   && Nat.eqb (count_op OAppend s) 0 && Nat.eqb (count_op OSpawned s) 0
   && Nat.eqb (count_op ORun s) 1 && Nat.leb (count_op OEmit s) 1.
 
+(* the actor discipline at the level of spans (call-index free; used by the proofs): with
+   l = attached to a thread, m = under the lock, a = a side-effects append follows the run *)
+Inductive dsh := SOut | SIn | SOpen | SPend.
+
+Definition sstep (l m a : bool) (s : dsh) (o : op) : option dsh :=
+  match o with
+  | OAcquire => match s with SOut => Some SIn | _ => None end
+  | ORelease => match s with SIn => Some SOut | _ => None end
+  | ORun => if m then match s with SIn => Some (if a then SPend else SIn) | _ => None end
+            else if a then None else Some s
+  | OEmit => Some s
+  | OAppend => if l then match s with SPend => Some SIn | _ => None end else Some s
+  | OSpawned => Some s
+  end.
+
+Fixpoint srun (l m a : bool) (s : dsh) (ops : list op) : option dsh :=
+  match ops with
+  | [] => Some s
+  | o :: r => match sstep l m a s o with Some s' => srun l m a s' r | None => None end
+  end.
+
+Definition has_append (s : list op) : bool := existsb (op_eqb OAppend) s.
+
+Definition span_accepts (l m : bool) (s : list op) : bool :=
+  match srun l m (l && has_append s) SOut s with Some SOut => true | _ => false end.
+
 Definition wf_spans (c : cfg) : bool :=
   wf_locked_span true (span_tool c) && wf_locked_span true (span_loop_tool c)
   && wf_locked_span false (span_ckpt c) && wf_locked_span false (span_task c)
-  && wf_ro_span (span_ro c) && wf_ro_span (span_loop_ro c).
+  && wf_ro_span (span_ro c) && wf_ro_span (span_loop_ro c)
+  && span_accepts true true (span_tool c) && span_accepts false true (span_tool c)
+  && span_accepts true true (span_loop_tool c) && span_accepts false true (span_loop_tool c)
+  && span_accepts true false (span_ro c) && span_accepts false false (span_ro c)
+  && span_accepts true false (span_loop_ro c) && span_accepts false false (span_loop_ro c)
+  && span_accepts false true (span_ckpt c) && span_accepts false true (span_task c).
 
 Definition wf_cfg (c : cfg) : bool :=
   N.eqb (permits c) 1 && shared_lock c && N.eqb (stray_sites c) 0 && wf_classes c && wf_spans c.
@@ -125,8 +156,6 @@ Inductive instr :=
 | IApp (k : N)                           (* continuity_tool_side_effects frame appended to the thread *)
 | ISpawn                                 (* tool_task_spawned emitted *)
 | IRunEnded.                             (* session ended / continuity_run_ended appended *)
-
-Definition has_append (s : list op) : bool := existsb (op_eqb OAppend) s.
 
 Definition compile_op (linked : bool) (k : N) (m : bool) (a : bool) (o : op) : list instr :=
   match o with
@@ -233,6 +262,29 @@ Fixpoint daccept (d : dstate) (l : list instr) : bool :=
   end.
 
 Definition wf_sys (f : nat -> list instr) : Prop := forall i, daccept DOut (f i) = true.
+
+Fixpoint drun (d : dstate) (l : list instr) : option dstate :=
+  match l with
+  | [] => Some d
+  | ins :: r => match dstep d ins with Some d' => drun d' r | None => None end
+  end.
+
+Definition lift (k : N) (s : dsh) : dstate :=
+  match s with SOut => DOut | SIn => DIn | SOpen => DOpen k | SPend => DPend k end.
+
+(* the configuration as read from the source when this model was written (examples only; the
+   check uses the regenerated Gen.LockSpans.gen_cfg) *)
+Definition ref_cfg : cfg := {|
+  permits := 1; shared_lock := true; stray_sites := 0;
+  lockfree := [s_read; s_ls; s_grep; s_artifact_fetch];
+  registered := [s_read; s_artifact_fetch; s_write; s_apply_patch; s_ls; s_grep; s_bash; s_shell];
+  span_tool := [OAcquire; ORun; OEmit; OAppend; ORelease];
+  span_ro := [ORun; OEmit];
+  span_loop_tool := [OAcquire; ORun; OEmit; OAppend; ORelease];
+  span_loop_ro := [ORun; OEmit];
+  span_ckpt := [OAcquire; ORun; OEmit; ORelease];
+  span_task := [OSpawned; OAcquire; ORun; ORelease]
+|}.
 
 (* ------------------------------------------------------------------ observations on traces *)
 (* actor i is between Start and End of a mutating call (trace newest first) *)
